@@ -21,6 +21,16 @@ pub struct GenIter {
     pub next_val: u32,
     pub hint: Hint,
     pub made: Vec<u32>,
+    /// The iterator is deliberately not fused: once it has returned `None`, polling it again produces
+    /// further elements.  They are not part of the sequence the caller passed, and are recorded here.
+    pub ended: bool,
+    pub extra: Vec<u32>,
+}
+
+impl GenIter {
+    pub fn new(left: u32, next_val: u32, hint: Hint) -> GenIter {
+        GenIter { left, next_val, hint, made: Vec::new(), ended: false, extra: Vec::new() }
+    }
 }
 
 impl Iterator for GenIter {
@@ -28,7 +38,16 @@ impl Iterator for GenIter {
     fn next(&mut self) -> Option<Tracked> {
         ledger::user_event(FaultKind::IterStep);
         if self.left == 0 {
-            return None;
+            if !self.ended {
+                self.ended = true;
+                return None;
+            }
+            if self.extra.len() >= 3 {
+                return None;
+            }
+            let t = Tracked::new(7_000_000 + self.extra.len() as u32);
+            self.extra.push(t.raw_id());
+            return Some(t);
         }
         self.left -= 1;
         let t = Tracked::new(self.next_val);
@@ -590,7 +609,7 @@ impl St {
                 Ok(Flow::Done)
             }
             Op::Extend(m, hint) => {
-                let mut it = GenIter { left: *m, next_val: self.next_val, hint: *hint, made: Vec::new() };
+                let mut it = GenIter::new(*m, self.next_val, *hint);
                 let r = {
                     let it = &mut it;
                     self.call(move |b| b.extend_dyn(it))
@@ -598,6 +617,12 @@ impl St {
                 self.next_val = it.next_val;
                 let made: Vec<(u32, u32)> = it.made.iter().map(|id| (*id, ledger::slot(*id).unwrap().val)).collect();
                 // evicted elements are dropped by the crate (push_back's return value is discarded)
+                if !it.extra.is_empty() {
+                    return Err(format!(
+                        "extend() polled the iterator again after it had returned None and took {} further element(s) out of it (the iterator is not fused)",
+                        it.extra.len()
+                    ));
+                }
                 cc!(r);
                 if it.left != 0 {
                     return Err(format!("extend() stopped early: {} elements not pulled from the iterator", it.left));
